@@ -86,8 +86,9 @@ def worker(case):
         rng = Rng(case['seed'])
         opts = case['flex_opts']
         # (A) scanner with serialized tables, (B) the same with in-code tables
-        textA = spec_for(prog, rng.fork("p"), "yy", ['tables-file="t.tables"'], MAIN_LOAD)
-        textB = spec_for(prog, rng.fork("p"), "yy", [], backends.epilogue('nr', len(prog['rules']) + 1))
+        xo = list(case.get('extra_options') or [])
+        textA = spec_for(prog, rng.fork("p"), "yy", ['tables-file="t.tables"'] + xo, MAIN_LOAD)
+        textB = spec_for(prog, rng.fork("p"), "yy", xo, backends.epilogue('nr', len(prog['rules']) + 1))
         res['text'] = textA
         with open(os.path.join(wd, "a.l"), "w") as f:
             f.write(textA)
@@ -304,7 +305,17 @@ def build_cases(rng, tier):
     for i in range(n):
         r = rng.fork("rt%d" % i)
         prog = rulesets.gen_program(r, trailing=(i % 5 == 0), max_scs=1, csize=256)
-        cases.append({'id': "t%d" % i, 'kind': 'rt', 'prog': prog, 'seed': r.s, 'flex_opts': list(REPRS[i % len(REPRS)]) + ["-8"],
+        repr_ = list(REPRS[i % len(REPRS)])
+        extra = []
+        if i % 4 == 1:
+            # yy_acclist with its YY_TRAILING_MASK / YY_TRAILING_HEAD_MASK entries: a rule with variable head and trail
+            a, b = r.pick([(97, 98), (48, 97), (98, 98)])
+            prog['rules'].insert(r.below(len(prog['rules']) + 1),
+                                 {'head': ('plus', ('c', a)), 'bol': False, 'scs': None, 'trail': ('cat', ('star', ('c', b)), ('c', 120))})
+            repr_ = list(r.pick([[], ["-Ce"], ["-Cm"], ["-C"], ["-Ca"], ["-Cem"]]))
+        elif i % 4 == 3 and not any(('f' in o or 'F' in o) for o in repr_):
+            extra = ["reject"]            # plain REJECT tables (yy_acclist without flags)
+        cases.append({'id': "t%d" % i, 'kind': 'rt', 'prog': prog, 'seed': r.s, 'flex_opts': repr_ + ["-8"], 'extra_options': extra,
                       'inputs': rulesets.gen_inputs(prog, r.fork("in"), count=2, maxlen=80),
                       # (-CF reads yy_transition past its end on some bytes, in-code and loaded alike: that is C13's finding, not a loader defect)
                       'asan': i % 3 == 0 and not any('F' in o for o in REPRS[i % len(REPRS)]), 'tier': tier,
